@@ -45,6 +45,8 @@ def run(ctx):
     for a in ALGS:
         for _ in range(n):
             recs.append(scenarios.run_spec(scenarios.make_spec(ctx.rng, a, valid=True, small=ctx.quick), max_steps=40))
+    for v in range(3):
+        recs.append(scenarios.run_spec(scenarios.epal_directed("nonpess-coverer", variant=v), max_steps=10))
     viol = []
     stats = {"runs": len(recs), "finished": 0, "valid": 0, "judged": 0, "discarded_some": 0, "isolated_designs": 0}
     for rec in recs:
